@@ -40,7 +40,9 @@ def compute_xn(u):
     dx0 = dx.vec()
     stores = []
     u.it.hooks["store"] = lambda it, cell, frame, node, what: stores.append(cell)
-    sr = u.construct(SS + "StepResult", cur, dx, dy, Opaque("active_set"))
+    act_kind = u.path.choose_n(2, "active set given / None")
+    active = u.vec("active_set", n, kind="bool") if act_kind == 0 else None
+    sr = u.construct(SS + "StepResult", cur, dx, dy, active)
     x, lb, ub = V(cur.fields["x"]), V(problem.fields["var_lb"]), V(problem.fields["var_ub"])
     xn, dxn = V(sr.fields["xn"]), V(sr.fields["dx"])
     u.ensure(QAll(n, lambda j: z3.And(lb.f(j) <= xn.f(j), xn.f(j) <= ub.f(j))), "xn_in_box")
@@ -206,3 +208,30 @@ def globalized_step(u):
     u.it.hooks["call"] = in_box_hook(u, problem, log)
     kind, val = u.raised(lambda: u.method(meth, "step", cur))
     u.ensure(True, "ran")
+
+
+@unit("C05._compute_xn.float64", ["C05"], [SS + "StepResult._compute_xn"])
+def compute_xn_fp(u):
+    """the clip re-posed in IEEE double arithmetic (round-to-nearest-even): 'exactly inside the bounds' must not
+    depend on real-number identities such as x - (x - lb) = lb.  Inputs: no NaN; x and dx finite; lb <= ub
+    (bounds may be infinite)."""
+    import z3 as _z3
+
+    params = mk_params(u)
+    n = u.int("n")
+    u.assume(n >= 0)
+    lb, ub, x, dx = u.fpvec("lb", n, "USER"), u.fpvec("ub", n, "USER"), u.fpvec("x", n), u.fpvec("dx", n, "USER")
+    for a in (lb, ub, x, dx):
+        av = a.vec()
+        u.path.add_ufact(UFact(1, lambda j, av=av: _z3.Not(_z3.fpIsNaN(av.f(j))), [(0, n)], "no NaN"))
+    xv, dv, lv, uv = x.vec(), dx.vec(), lb.vec(), ub.vec()
+    u.path.add_ufact(UFact(1, lambda j: _z3.And(_z3.Not(_z3.fpIsInf(xv.f(j))), _z3.Not(_z3.fpIsInf(dv.f(j))), _z3.fpLEQ(lv.f(j), uv.f(j)), _z3.fpLEQ(lv.f(j), xv.f(j)), _z3.fpLEQ(xv.f(j), uv.f(j))), [(0, n)], "finite x, dx; lb <= x <= ub"))
+    problem = u.obj("pygradflow.problem.Problem", var_lb=lb, var_ub=ub, num_cons=0)
+    problem.fields["__n__"] = n
+    x.cell.writeable = False
+    cur = u.obj("pygradflow.iterate.Iterate", x=x, y=u.fpvec("y", 0), params=params, problem=problem, eval=Opaque("evaluator"))
+    sr = u.obj(SS + "StepResult", orig_iterate=cur)
+    u.method(sr, "_compute_xn", dx)
+    xn = sr.fields["xn"].vec()
+    u.ensure(QAll(n, lambda j: _z3.And(_z3.fpLEQ(lv.f(j), xn.f(j)), _z3.fpLEQ(xn.f(j), uv.f(j)))), "float64:xn_inside_the_bounds_exactly")
+    u.canary(QAll(n, lambda j: _z3.fpLT(lv.f(j), xn.f(j))), "float64:xn_strictly_above_lb")
